@@ -35,7 +35,31 @@ def run_history(ctx, rng, case, est, Q, rate, hname, hf, keys, nsteps, p_pushpop
     rotations = reloads = 0
     for step in range(nsteps):
         r = rng.random()
-        if r < 0.8:
+        if r < 0.06 or (r < 0.3 and counts[-1] == est and len(counts) >= Q and rng.random() < 0.5):
+            # a REFUSED addition (hash list too short or not integers): whatever it does, the structural bounds and the per-filter
+            # counts checked below must hold afterwards; the window of older keys is void if the call rotated before it failed
+            key = rng.choice(keys)
+            kfull = refimpl.bloom_sizing_simple(est, rate)[1]
+            hl = list((hf or _default())(key, kfull))
+            bad = hl[: rng.randint(0, max(0, kfull - 1))] if rng.random() < 0.6 else hl[:-1] + ["x"]
+            case.op("refused add_alt", key)
+            q_before = f.current_queue_size
+            try:
+                f.add_alt(bad, rng.random() < 0.6)
+                accepted = True
+            except Exception:
+                accepted = False
+                ctx.count("refused_additions")
+            ctx.check(f.current_queue_size <= Q, f"a refused addition left the queue with {f.current_queue_size} filters (limit {Q}) at step {step}")
+            _, now_counts = counts_of(f)
+            if accepted or now_counts != counts:
+                # the call took effect in some way (an implementation may rotate before it fails): resynchronise the model from what is observable
+                counts[:] = now_counts
+                tracked.clear()
+                calls = f.elements_added
+                eff_total = sum(counts)
+            ctx.count("op.refused_add")
+        elif r < 0.8:
             key = rng.choice(keys)
             force = rng.random() < 0.15
             if force and rng.random() < 0.3:
